@@ -18,10 +18,10 @@ RULE = ('Cases: an ancestor with 1..3 planted insertions/deletions of length 1..
         'exactly those genotyped 1, no sample is genotyped for an allele it lacks.  Each record must match one planted indel by '
         'location (one allele string lies in the ancestor, the other in the ancestor with only that indel applied), length and '
         'carrier set; no planted indel may be reported twice.  Recall is a population statistic of the run: at least 90% of the '
-        'planted indels must be reported (inconclusive below 500 planted), over the whole run and over each of its two input populations: random indels, and indels that repeat their flank (homopolymer / tandem-unit length changes, a third of the cases).  Non-trivial: >= 1 planted indel; distinct = inputs.')
+        'planted indels must be reported (inconclusive below 500 planted), over the whole run and over each of its three input populations: random indels, indels that repeat their flank (homopolymer / tandem-unit length changes), and indels whose junction lies inside a split k-mer with self-complementary arms (a quarter of the cases each for the last two).  Non-trivial: >= 1 planted indel; distinct = inputs.')
 ASSUMPTIONS = ['the sample sequences written by the generator are the ground truth',
                'recall is judged on the aggregate of a run with a minimum sample size of 500 planted indels']
-REQUIRED = {t: ['records_checked', 'planted', 'planted:plain', 'planted:flank', 'insertions', 'deletions', 'threads>1', 'multi_indel_inputs'] for t in ('quick', 'thorough')}
+REQUIRED = {t: ['records_checked', 'planted', 'planted:plain', 'planted:flank', 'planted:palin', 'insertions', 'deletions', 'threads>1', 'multi_indel_inputs'] for t in ('quick', 'thorough')}
 KS = [11, 15, 21, 31]
 
 
@@ -34,7 +34,8 @@ def plan(tier, seed, rng, scale):
     descs = []
     for i in range(n):
         descs.append({'k': KS[i % 4], 'seed': rng.getrandbits(32), 'threads': rng.choice([1, 1, 2, 3, 4]),
-                      'jitter': rng.getrandbits(16) if rng.random() < 0.25 else None, 'flank': i % 3 == 2})
+                      'jitter': rng.getrandbits(16) if rng.random() < 0.25 else None,
+                      'flank': True if i % 4 == 2 else ('palin' if i % 4 == 3 else False)})
     return descs
 
 
@@ -138,6 +139,27 @@ def gen(rng, k, ns, flank_repeat=False):
         for s in sites:
             ln = rng.randint(1, min(10, k - 1))
             kind = rng.choice(['ins', 'del'])
+            if flank_repeat == 'palin':
+                # the carrier-side (insertion) or ancestor-side (deletion) sequence around the junction is L.m.rc(L):
+                # a window whose two arms are reverse complements of each other spans the indel
+                h = (k - 1) // 2
+                L_ = G.rseq(rng, h)
+                P = L_ + rng.choice('ACGT') + M.rc(L_)
+                ln = rng.randint(1, min(6, k - 3))
+                a = rng.randint(1, k - ln - 1)
+                kind = rng.choice(['ins', 'del'])
+                if kind == 'ins':
+                    anc = anc[:s - a] + P[:a] + P[a + ln:] + anc[s - a + k - ln:]
+                    indels.append((s, 'ins', ln, P[a:a + ln]))
+                else:
+                    anc = anc[:s - a] + P + anc[s - a + k:]
+                    indels.append((s, 'del', ln, None))
+                while True:
+                    car = [rng.random() < 0.5 for _ in range(ns)]
+                    if any(car) and not all(car):
+                        break
+                carriers.append(car)
+                continue
             if flank_repeat:
                 # the indel repeats its flank: homopolymer / tandem-unit length change (still unique (k-1)-mers, checked below)
                 ln = rng.randint(1, 4)
@@ -213,7 +235,7 @@ def run_case(desc, ctx):
     except (OSError, ValueError, KeyError, IndexError) as e:
         res.violate('C18:unparsable', 'indel VCF unreadable: %s' % e, detail)
         return res
-    pop = 'flank' if desc.get('flank') else 'plain'
+    pop = {True: 'flank', 'palin': 'palin'}.get(desc.get('flank'), 'plain')
     res.count('planted', len(indels))
     res.count('planted:' + pop, len(indels))
     res.count('insertions', sum(1 for x in indels if x[1] == 'ins'))
@@ -286,7 +308,7 @@ def finalize(tier, counters, sets):
         out.append({'signature': 'C18:recall', 'what': 'only %d of %d planted indels reported (%.1f%% < 90%%)' % (found, planted, 100.0 * found / planted),
                     'detail': None})
     # the same statistic on each population of inputs (random indels; indels that repeat their flank), when large enough
-    for pop in ('plain', 'flank'):
+    for pop in ('plain', 'flank', 'palin'):
         pl, fo = counters.get('planted:' + pop, 0), counters.get('reported_planted:' + pop, 0)
         if pl >= 500 and fo * 10 < pl * 9:
             out.append({'signature': 'C18:recall:' + pop, 'what': 'only %d of %d planted %s indels reported (%.1f%% < 90%%)' % (fo, pl, pop, 100.0 * fo / pl),
